@@ -12,7 +12,7 @@ Proof. destruct a, b; simpl; split; congruence. Qed.
 
 Lemma path_eqb_eq x y : path_eqb x y = true <-> x = y.
 Proof.
-  destruct x as [r n|p r], y as [r' n'|p' r']; simpl; try (split; congruence).
+  destruct x as [r n|p r|], y as [r' n'|p' r'|]; simpl; try (split; congruence).
   - rewrite andb_true_iff, role_eqb_eq, Nat.eqb_eq. split; [intros [-> ->]; auto | intros H; inversion H; auto].
   - rewrite andb_true_iff, role_eqb_eq, Nat.eqb_eq. split; [intros [-> ->]; auto | intros H; inversion H; auto].
 Qed.
@@ -45,10 +45,15 @@ Lemma step_proc_procs pr orc st p q :
               forall p', procs (step_proc pr orc st p q) p' = if Nat.eqb p' p then Some q' else procs st p').
 Proof.
   destruct q as [n c g]. unfold step_proc; simpl.
-  destruct c as [| |r w| | | |o].
+  destruct c as [| | | | |r w| | | |o].
+  - eexists; (split; [|split; [|split; [|split]]]); try (intros; reflexivity); simpl; try discriminate; try lia; auto.
+  - destruct (exists_ (files st CacheDir)); eexists; (split; [|split; [|split; [|split]]]);
+      try (intros; reflexivity); simpl; try discriminate; try lia; auto.
+  - destruct (exists_ (files st CacheDir)); eexists; (split; [|split; [|split; [|split]]]);
+      try (intros; reflexivity); simpl; try discriminate; try lia; auto.
   - destruct (load orc (files st (Final So n))); eexists; (split; [|split; [|split; [|split]]]);
       try (intros; reflexivity); simpl; try discriminate; try lia; auto.
-  - eexists; (split; [|split; [|split; [|split]]]); try (intros; reflexivity); simpl; try discriminate; try lia; auto.
+  - destruct (exists_ (files st CacheDir)); eexists; (split; [|split; [|split; [|split]]]); try (intros; reflexivity); simpl; try discriminate; try lia; auto.
   - unfold stage, begin, goto; simpl.
     destruct pr, r, w; simpl;
       repeat match goal with
@@ -104,7 +109,7 @@ Proof.
 Qed.
 
 Lemma rank_zero_done c : rank c = 0 -> is_done c = true.
-Proof. destruct c as [| |r w| | | |o]; simpl; try discriminate; auto. destruct r, w; simpl; discriminate. Qed.
+Proof. destruct c as [| | | | |r w| | | |o]; simpl; try discriminate; auto. destruct r, w; simpl; discriminate. Qed.
 
 Definition is_step_of (p : pid) (l : label) : bool :=
   match l with Step p' => Nat.eqb p' p | _ => false end.
@@ -148,7 +153,8 @@ Definition proc_inv (st : state) (p : pid) (q : proc) : Prop :=
   let n := pform q in
   let T r := files st (Tmp p r) in
   match ppc q with
-  | PImport | PMkdtemp | PWrite Pyx W0 => forall r, T r = Absent
+  | PChkDir | PCreate => False                       (* not part of the repaired protocol *)
+  | PMkdir | PImport | PMkdtemp | PWrite Pyx W0 => forall r, T r = Absent
   | PWrite Pyx _ => preg q = n /\ T Cfile = Absent /\ T Obj = Absent /\ T So = Absent
   | PWrite Cfile W0 => T Pyx = Complete n /\ T Cfile = Absent /\ T Obj = Absent /\ T So = Absent
   | PWrite Cfile _ => preg q = n /\ T Obj = Absent /\ T So = Absent
@@ -161,13 +167,21 @@ Definition proc_inv (st : state) (p : pid) (q : proc) : Prop :=
   | PDone o => o = Ok n \/ o = Killed
   end.
 
+(* the cache directory exists for every process that is past its creation *)
+Definition dir_inv (st : state) (c : pc) : Prop :=
+  match c with
+  | PMkdir | PChkDir | PCreate | PDone _ => True
+  | _ => files st CacheDir = Complete 0
+  end.
+
 Record Inv (st : state) : Prop := {
+  inv_dir : forall p q, procs st p = Some q -> dir_inv st (ppc q);
   inv_final : forall n, final_ok n (files st (Final So n));
   inv_fresh : forall p, procs st p = None -> forall r, files st (Tmp p r) = Absent;
   inv_procs : forall p q, procs st p = Some q -> proc_inv st p q }.
 
 Lemma inv_init : Inv init.
-Proof. split; simpl; auto. intros; discriminate. Qed.
+Proof. split; simpl; auto; intros; discriminate. Qed.
 
 (* the only shared file a step of the repaired protocol touches is the final .so of its
    own form, and it only ever installs the finished artefact there *)
@@ -177,27 +191,34 @@ Lemma step_proc_frame st p q :
   (forall p' r, p' <> p -> files st' (Tmp p' r) = files st (Tmp p' r)) /\
   (forall n, files st' (Final So n) = files st (Final So n) \/
              (n = pform q /\ files st' (Final So n) = Complete n)) /\
-  (forall r n, r <> So -> files st' (Final r n) = files st (Final r n)).
+  (forall r n, r <> So -> files st' (Final r n) = files st (Final r n)) /\
+  (files st CacheDir = Complete 0 -> files st' CacheDir = Complete 0).
 Proof.
   destruct q as [n c g]. unfold proc_inv, step_proc; simpl. intros HI.
   assert (TF: forall p' r r' v, p' <> p -> upd (files st) (Tmp p r') v (Tmp p' r) = files st (Tmp p' r)).
   { intros. apply upd_other. congruence. }
   assert (FF: forall r' v r0 n0, upd (files st) (Tmp p r') v (Final r0 n0) = files st (Final r0 n0)).
   { intros. apply upd_other. congruence. }
-  destruct c as [| |r w| | | |o].
+  assert (DF: forall x v, x <> CacheDir -> files st CacheDir = Complete 0 -> upd (files st) x v CacheDir = Complete 0).
+  { intros. rewrite upd_other by congruence. auto. }
+  destruct c as [| | | | |r w| | | |o].
+  - simpl. repeat split; intros; auto; try (rewrite upd_other by congruence; auto).
+  - contradiction.
+  - contradiction.
   - destruct (load orc (files st (Final So n))); simpl; repeat split; auto.
-  - simpl; repeat split; auto.
+  - destruct (exists_ (files st CacheDir)); simpl; repeat split; auto.
   - unfold stage, begin, goto; simpl.
     destruct r, w; simpl;
       repeat match goal with
              | |- context [match files ?s ?x with _ => _ end] => destruct (files s x)
              | |- context [if stale ?a ?b ?c then _ else _] => destruct (stale a b c)
-             end; simpl; repeat split; intros; auto.
+             end; simpl; repeat split; intros; auto; try (apply DF; [congruence|auto]).
   - simpl. repeat split; intros.
     + rewrite upd_other by congruence. rewrite upd_other by congruence. auto.
     + destruct (Nat.eq_dec n0 n).
       * subst n0. right. split; auto. rewrite upd_other by congruence. rewrite upd_same. auto.
       * left. rewrite upd_other by congruence. rewrite upd_other by congruence. auto.
+    + rewrite upd_other by congruence. rewrite upd_other by congruence. auto.
     + rewrite upd_other by congruence. rewrite upd_other by congruence. auto.
   - simpl. repeat split; intros; auto.
     destruct (Nat.eqb p' p) eqn:E; auto. apply Nat.eqb_eq in E. contradiction.
@@ -211,7 +232,7 @@ Lemma proc_inv_frame st st' p q :
   (files st (Final So (pform q)) = Complete (pform q) -> files st' (Final So (pform q)) = Complete (pform q)) ->
   proc_inv st p q -> proc_inv st' p q.
 Proof.
-  intros HT HF. unfold proc_inv. destruct (ppc q) as [| |r w| | | |o]; try (destruct r, w);
+  intros HT HF. unfold proc_inv. destruct (ppc q) as [| | | | |r w| | | |o]; try (destruct r, w);
     repeat rewrite HT; auto.
   all: intros; try rewrite HT; auto.
 Qed.
@@ -226,11 +247,17 @@ Lemma step_proc_own st p q :
   procs st p = Some q ->
   final_ok (pform q) (files st (Final So (pform q))) ->
   proc_inv st p q ->
+  dir_inv st (ppc q) ->
   forall q', procs (step_proc New orc st p q) p = Some q' ->
   proc_inv (step_proc New orc st p q) p q'.
 Proof.
-  destruct q as [n c g]. unfold step_proc; simpl. intros HP HF HI q'.
-  destruct c as [| |r w| | | |o].
+  destruct q as [n c g]. unfold step_proc; simpl. intros HP HF HI HD q'.
+  destruct c as [| | | | |r w| | | |o].
+  - (* PMkdir *)
+    unfold goto, setproc; simpl; rewrite Nat.eqb_refl. intros H; inversion H; subst; clear H.
+    unfold proc_inv in *; simpl in *. intros r. rewrite upd_other by congruence. auto.
+  - contradiction.
+  - contradiction.
   - (* PImport *)
     unfold proc_inv in HI; simpl in HI. unfold load.
     destruct (files st (Final So n)) as [|k c|c] eqn:E; simpl in HF.
@@ -241,7 +268,9 @@ Proof.
         unfold proc_inv; simpl; auto.
     + subst c. unfold goto, setproc; simpl; rewrite Nat.eqb_refl. intros H; inversion H; subst; clear H.
       unfold proc_inv; simpl. auto.
-  - unfold goto, setproc; simpl; rewrite Nat.eqb_refl. intros H; inversion H; subst; clear H.
+  - (* PMkdtemp *)
+    simpl in HD. rewrite HD. simpl.
+    unfold goto, setproc; simpl; rewrite Nat.eqb_refl. intros H; inversion H; subst; clear H.
     unfold proc_inv in *; simpl in *. auto.
   - (* the four build stages *)
     unfold proc_inv in HI; simpl in HI.
@@ -269,25 +298,68 @@ Proof.
     assert (q' = mkproc n (PDone o) g) by congruence. subst q'. simpl. auto.
 Qed.
 
+Lemma step_proc_dir st p q :
+  procs st p = Some q ->
+  proc_inv st p q ->
+  dir_inv st (ppc q) ->
+  forall q', procs (step_proc New orc st p q) p = Some q' ->
+  dir_inv (step_proc New orc st p q) (ppc q').
+Proof.
+  destruct q as [n c g]. unfold step_proc; simpl. intros HP HI HD q'.
+  destruct c as [| | | | |r w| | | |o].
+  - unfold goto, setproc; simpl; rewrite Nat.eqb_refl. intros H; inversion H; subst; clear H.
+    simpl. reflexivity.
+  - contradiction.
+  - contradiction.
+  - simpl in HD. destruct (load orc (files st (Final So n)));
+      unfold goto, setproc; simpl; rewrite Nat.eqb_refl; intros H; inversion H; subst; clear H; simpl; auto.
+  - simpl in HD. rewrite HD. simpl.
+    unfold goto, setproc; simpl; rewrite Nat.eqb_refl. intros H; inversion H; subst; clear H. simpl. auto.
+  - assert (HD' : files st CacheDir = Complete 0) by (destruct r, w; exact HD). clear HD.
+    unfold stage, begin, goto; simpl.
+    destruct r, w; simpl;
+      repeat match goal with
+             | |- context [match files ?s ?x with _ => _ end] => destruct (files s x)
+             | |- context [if stale ?a ?b ?c then _ else _] => destruct (stale a b c)
+             end;
+      unfold setproc; simpl; rewrite Nat.eqb_refl; intros H'; inversion H'; subst; clear H'; simpl; auto;
+      try (rewrite upd_other by congruence; auto).
+  - simpl in HD. unfold goto, setproc; simpl; rewrite Nat.eqb_refl. intros H; inversion H; subst; clear H.
+    simpl. rewrite upd_other by congruence. rewrite upd_other by congruence. auto.
+  - simpl in HD. unfold goto, setproc; simpl; rewrite Nat.eqb_refl. intros H; inversion H; subst; clear H.
+    simpl. auto.
+  - simpl in HD. destruct (load orc (files st (Final So n)));
+      unfold goto, setproc; simpl; rewrite Nat.eqb_refl; intros H; inversion H; subst; clear H; simpl; auto.
+  - intros H. assert (q' = mkproc n (PDone o) g) by congruence. subst q'. simpl. auto.
+Qed.
+
 Lemma final_ok_frame n f f' : (f' = f \/ f' = Complete n) -> final_ok n f -> final_ok n f'.
 Proof. intros [->| ->]; simpl; auto. Qed.
 
 Lemma inv_step st l : Inv st -> Inv (step New orc st l).
 Proof.
-  intros [I1 I2 I3]. destruct l as [p n|p|p]; simpl.
+  intros [I0 I1 I2 I3]. destruct l as [p n|p|p]; simpl.
   - (* Spawn *)
     destruct (procs st p) eqn:E; [split; auto|].
     split; simpl; auto.
+    + intros p' q H. destruct (Nat.eqb p' p) eqn:E2.
+      * inversion H; subst. simpl. auto.
+      * apply (I0 _ _ H).
     + intros p' H. destruct (Nat.eqb p' p); [discriminate|auto].
     + intros p' q H. destruct (Nat.eqb p' p) eqn:E2.
       * apply Nat.eqb_eq in E2. subst p'. inversion H; subst. unfold proc_inv; simpl. apply I2; auto.
       * apply (I3 _ _ H).
   - (* Step *)
     destruct (procs st p) as [q|] eqn:E; [|split; auto].
-    pose proof (I3 _ _ E) as Hq.
-    destruct (step_proc_frame st p q Hq) as (F1 & F2 & F3).
+    pose proof (I3 _ _ E) as Hq. pose proof (I0 _ _ E) as Hd.
+    destruct (step_proc_frame st p q Hq) as (F1 & F2 & F3 & F4).
     destruct (step_proc_procs New orc st p q) as (q' & Hf & _ & _ & _ & Hp). specialize (Hp E).
     split.
+    + intros p' q0 H. rewrite Hp in H. destruct (Nat.eqb p' p) eqn:E2.
+      * apply Nat.eqb_eq in E2. subst p'. apply step_proc_dir; auto.
+        rewrite Hp, Nat.eqb_refl. auto.
+      * pose proof (I0 _ _ H) as H0. unfold dir_inv in *.
+        destruct (ppc q0) as [| | | | |r w| | | |o]; auto.
     + intros n. apply final_ok_frame with (f := files st (Final So n)); auto.
       destruct (F2 n) as [->|[_ ->]]; auto.
     + intros p' H r. rewrite Hp in H. destruct (Nat.eqb p' p) eqn:E2; [discriminate|].
@@ -304,6 +376,9 @@ Proof.
     destruct (procs st p) as [q|] eqn:E; [|split; auto].
     destruct (is_done (ppc q)); [split; auto|].
     split; simpl; auto.
+    + intros p' q0 H. destruct (Nat.eqb p' p) eqn:E2.
+      * inversion H; subst. simpl. auto.
+      * apply (I0 _ _ H).
     + intros p' H. destruct (Nat.eqb p' p); [discriminate|auto].
     + intros p' q0 H. destruct (Nat.eqb p' p) eqn:E2.
       * inversion H; subst. unfold proc_inv; simpl. auto.
@@ -327,7 +402,7 @@ Proof.
   intros HI. destruct l as [p m|p|p]; simpl.
   - destruct (procs st p); simpl; auto.
   - destruct (procs st p) as [q|] eqn:E; auto.
-    destruct (step_proc_frame st p q (inv_procs _ HI _ _ E)) as (_ & F2 & _).
+    destruct (step_proc_frame st p q (inv_procs _ HI _ _ E)) as (_ & F2 & _ & _).
     destruct (F2 n) as [->|[_ ->]]; auto.
   - destruct (procs st p) as [q|]; auto. destruct (is_done (ppc q)); simpl; auto.
 Qed.
@@ -390,7 +465,7 @@ Proof.
   destruct l as [p m|p|p]; simpl.
   - destruct (procs st p); simpl; auto.
   - destruct (procs st p) as [q|] eqn:E; auto.
-    destruct (step_proc_frame st p q (inv_procs _ HI _ _ E)) as (_ & _ & F3). auto.
+    destruct (step_proc_frame st p q (inv_procs _ HI _ _ E)) as (_ & _ & F3 & _). auto.
   - destruct (procs st p) as [q|]; auto. destruct (is_done (ppc q)); simpl; auto.
 Qed.
 
@@ -412,13 +487,13 @@ Lemma recovery_l st0 tr p n :
 Proof.
   intros HI HN. set (st := run New orc tr st0) in *.
   assert (HIs : Inv (step New orc st (Spawn p n))) by (apply inv_step; apply inv_run; auto).
-  assert (HP : procs (step New orc st (Spawn p n)) p = Some (mkproc n PImport n)).
+  assert (HP : procs (step New orc st (Spawn p n)) p = Some (mkproc n PMkdir n)).
   { simpl. rewrite HN. rewrite procs_setproc, Nat.eqb_refl. auto. }
   set (st1 := step New orc st (Spawn p n)) in *.
   rewrite solo_is_run.
   destruct (liveness_l New orc (repeat (Step p) FUEL) st1 p _ HP) as (q' & A & B & C).
   { rewrite steps_of_repeat. simpl. unfold FUEL. lia. }
-  unfold outcome_of. rewrite A. destruct (ppc q') as [| |r w| | | |o] eqn:E; try discriminate.
+  unfold outcome_of. rewrite A. destruct (ppc q') as [| | | | |r w| | | |o] eqn:E; try discriminate.
   destruct (race_safety_l st1 _ p q' o HIs A E) as [->| ->].
   - simpl in B. rewrite B. auto.
   - exfalso. eapply (killed_only_by_kill_l New (repeat (Step p) FUEL) st1 p _ HP); eauto.
@@ -432,13 +507,13 @@ End NewProtocol.
 (* ------------------------------------------------------------------------- *)
 
 (* process 0 builds form 0 and is killed while the linker has written the first pages of the .so *)
-Definition tr_killed_in_link : list label := Spawn 0 0 :: repeat (Step 0) 19 ++ [Kill 0].
+Definition tr_killed_in_link : list label := Spawn 0 0 :: repeat (Step 0) 20 ++ [Kill 0].
 
 Lemma recovery_refuted_l : forall orc, orc Header = Crash ->
   (forall p, p <> 0 -> ~ In (Kill p) tr_killed_in_link) /\
   files (run Old orc tr_killed_in_link init) (Final So 0) = Partial Header 0 /\
   (* the first step of the fresh process 1 -- importlib.import_module -- kills the interpreter *)
-  outcome_of (run Old orc (tr_killed_in_link ++ [Spawn 1 0; Step 1]) init) 1 = Some Death.
+  outcome_of (run Old orc (tr_killed_in_link ++ [Spawn 1 0; Step 1; Step 1]) init) 1 = Some Death.
 Proof.
   intros orc H. split; [|split].
   - intros p Hp HI. unfold tr_killed_in_link in HI. simpl in HI.
@@ -448,7 +523,7 @@ Proof.
 Qed.
 
 (* nobody is killed: process 1 requests the form while process 0 is linking it *)
-Definition tr_import_during_link : list label := Spawn 0 0 :: Spawn 1 0 :: repeat (Step 0) 19 ++ [Step 1].
+Definition tr_import_during_link : list label := Spawn 0 0 :: Spawn 1 0 :: Step 1 :: repeat (Step 0) 20 ++ [Step 1].
 
 Lemma race_safety_refuted_l : forall orc, orc Header = Crash ->
   (forall p, ~ In (Kill p) tr_import_during_link) /\
@@ -463,7 +538,7 @@ Qed.
 (* nobody is killed, no damaged file is ever loaded: process 0 truncates the .pyx that process 1
    has just written and is about to hand to Cython *)
 Definition tr_pyx_truncated : list label :=
-  Spawn 0 0 :: Spawn 1 0 :: Step 0 :: Step 0 :: repeat (Step 1) 7 ++ [Step 0; Step 1].
+  Spawn 0 0 :: Spawn 1 0 :: Step 0 :: Step 0 :: Step 0 :: repeat (Step 1) 8 ++ [Step 0; Step 1].
 
 Lemma race_exception_refuted_l : forall orc,
   (forall p, ~ In (Kill p) tr_pyx_truncated) /\
@@ -477,10 +552,36 @@ Qed.
 
 (* both processes miss the cache; 0 completes the entry; 1 then links over it in place *)
 Definition tr_relink : list label :=
-  Spawn 0 0 :: Spawn 1 0 :: Step 1 :: repeat (Step 0) 26 ++ repeat (Step 1) 16.
+  Spawn 0 0 :: Spawn 1 0 :: Step 1 :: Step 1 :: repeat (Step 0) 27 ++ repeat (Step 1) 16.
 
 Lemma completed_overwritten_refuted_l : forall orc,
   files (run Old orc tr_relink init) (Final So 0) = Complete 0 /\
   outcome_of (run Old orc tr_relink init) 0 = Some (Ok 0) /\
   files (run Old orc (tr_relink ++ [Step 1]) init) (Final So 0) = Partial Empty 0.
 Proof. intros orc. vm_compute. auto. Qed.
+
+(* ------------------------------------------------------------------------- *)
+(* creating the cache directory: check-then-create is refuted on a cold start *)
+(* ------------------------------------------------------------------------- *)
+
+(* two processes (different forms) both see that MODDIR is missing; the second makedirs fails *)
+Definition tr_cold_start : list label := [Spawn 0 0; Spawn 1 1; Step 0; Step 1; Step 0; Step 1].
+
+Lemma cold_start_refuted_l : forall orc,
+  (forall p, ~ In (Kill p) tr_cold_start) /\
+  files init CacheDir = Absent /\
+  outcome_of (run NewCC orc tr_cold_start init) 1 = Some Exn.
+Proof.
+  intros orc. split; [|split].
+  - intros p HI. unfold tr_cold_start in HI. simpl in HI.
+    repeat (destruct HI as [HI|HI]; [discriminate|]). contradiction.
+  - reflexivity.
+  - vm_compute. reflexivity.
+Qed.
+
+(* with the idempotent mkdir the same schedule (and, by race_safety, every other one) is harmless,
+   and the directory exists for every process that is past that step *)
+Lemma cache_dir_exists_l orc st tr p q :
+  Inv orc st -> procs (run New orc tr st) p = Some q ->
+  match ppc q with PMkdir | PChkDir | PCreate | PDone _ => True | _ => files (run New orc tr st) CacheDir = Complete 0 end.
+Proof. intros HI HP. exact (inv_dir _ _ (inv_run orc tr st HI) _ _ HP). Qed.
